@@ -10,7 +10,7 @@ RULE = ("1-50 UBIs (random cells/orientations of a common cell family, plus near
         "symmetry x (1+1e-4), exact duplicates, 2x sub-lattices) x peaks 1..1.2e5 (sizes straddling multiples of the "
         "4096 OpenMP chunk) = lattice points of a random owner + noise, or spurious x tol in [0.005,0.4] x a "
         "permutation of the grain order x OpenMP threads in {1,2,3,7,16,32}; entry points: raw "
-        "score_and_assign loop (labels started at -1, and at 0 with grains numbered from 0 as the notebook helpers do), indexer.fight_over_peaks, refinegrains.assignlabels with per-grain translations "
+        "score_and_assign loop (labels started at -1, and at 0 with grains numbered from 0 as the notebook helpers do), indexer.fight_over_peaks (fresh indexer, and after assigntorings with ds_tol 0.0005-0.01 so that part of the peaks lie on no ring), refinegrains.assignlabels with per-grain translations, grain names equal to, offset from or unrelated to list positions "
         "and generated geometry (peaks forward simulated by the harness); oracle = dense argmin over the reference "
         "error matrix; non-trivial = >=2 grains index a common peak within tol, or n>4096 with threads>1; distinct "
         "= hash of the case")
@@ -187,6 +187,33 @@ def check(case, rec=None):
                 fails.append(fail("histogram", "fight_over_peaks: per-grain counts %s differ from the histogram of "
                                   "the labels %s" % (np.asarray(ix.gas)[:8].tolist(), hist[:8].tolist()),
                                   entry="fight_over_peaks"))
+        # ---- the same on an indexer that has assigned its peaks to rings first (as saveindexing / the GUI do):
+        #      the ring assignment plays no part in the competition, peaks off every ring included
+        dsmax = float(np.sqrt((gv * gv).sum(axis=1)).max()) if n else 0.0
+        nhkl_est = 4.19 * dsmax ** 3 / abs(np.linalg.det(gens.busing_levy_B(case["cell"])))
+        if n <= 3000 and nhkl_est < 20000:           # ring generation is a Python loop over all hkl
+            from ImageD11 import unitcell
+            ds_tol = [0.0005, 0.002, 0.01][case["seed"] % 3]
+            ok, ix2 = guard(indexing.indexer, unitcell=unitcell.unitcell(case["cell"], "P"), gv=gv, hkl_tol=tol,
+                            ds_tol=ds_tol)
+            if ok:
+                ok, e = guard(ix2.assigntorings)
+            if ok:
+                ix2.ubis = [u.copy() for u in ubis]
+                ok, e = guard(ix2.fight_over_peaks)
+                if not ok:
+                    fails.append(exc_failure("fight_over_peaks after assigntorings", e))
+                else:
+                    compare("indexer.fight_over_peaks after assigntorings (ds_tol %g, %d peaks on no ring)" %
+                            (ds_tol, int((np.asarray(ix2.ra) < 0).sum())), ix2.ga, ix2.drlv2, ref, 2.0, fails)
+                    hist = np.bincount(np.asarray(ix2.ga)[np.asarray(ix2.ga) >= 0], minlength=ng)
+                    if len(ix2.gas) != ng or not np.array_equal(np.asarray(ix2.gas), hist):
+                        fails.append(fail("histogram", "fight_over_peaks after assigntorings: per-grain counts differ "
+                                          "from the histogram of the labels", entry="fight_over_peaks/rings"))
+                    if rec is not None:
+                        rec.note("off_ring_peaks_in_competition", int((np.asarray(ix2.ra) < 0).sum()), "sum")
+            elif rec is not None:
+                rec.exclude("assigntorings refused the peak list (no competition after ring assignment run)")
     finally:
         cImageD11.cimaged11_omp_set_num_threads(2)
     if rec is not None:
@@ -213,8 +240,9 @@ def alcases(draw):
     fam, cell = draw(gens.cells(families=("cubic", "hexagonal", "orthorhombic"), lo=3.0, hi=6.0))
     seed = draw(st.integers(0, 2 ** 31 - 1))
     nthreads = draw(st.sampled_from([1, 2, 16]))
+    naming = draw(st.sampled_from(["position", "position", "offset", "scrambled"]))
     return dict(index=index, mseed=mseed, ng=ng, layout=layout, tol=tol, cell=[float(x) for x in cell],
-                family=fam, seed=seed, threads=nthreads)
+                family=fam, seed=seed, threads=nthreads, naming=naming)
 
 
 def build_al(case):
@@ -288,10 +316,19 @@ def check_al(case, rec=None):
     o.scannames = ["scan"]
     o.scantitles["scan"] = list(cf.titles)
     o.scandata["scan"] = cf
+    # grain names are the integers written in the labels column; they need not be list positions
+    # (filtergrain.py keeps one grain under its own number, a subset of a map keeps the original numbers)
+    naming = case.get("naming", "position")
+    if naming == "offset":
+        names = [g + 3 for g in range(ng)]
+    elif naming == "scrambled":
+        names = [int(x) for x in np.random.RandomState(case["seed"] % 9973).permutation(3 * ng + 2)[:ng]]
+    else:
+        names = list(range(ng))
     for g in range(ng):
-        o.grainnames.append(g)
-        o.ubisread[g] = ubis[g].copy()
-        o.translationsread[g] = ts[g].copy()
+        o.grainnames.append(names[g])
+        o.ubisread[names[g]] = ubis[g].copy()
+        o.translationsread[names[g]] = ts[g].copy()
     cImageD11.cimaged11_omp_set_num_threads(case["threads"])
     try:
         ok, e = guard(o.generate_grains)
@@ -301,22 +338,28 @@ def check_al(case, rec=None):
         cImageD11.cimaged11_omp_set_num_threads(2)
     if not ok:
         return [exc_failure("assignlabels", e)]
-    labels = np.asarray(o.scandata["scan"].labels).astype(int)
+    named = np.asarray(o.scandata["scan"].labels).astype(int)
+    back = {nm: g for g, nm in enumerate(names)}
+    back[-1] = -1
+    if not set(np.unique(named).tolist()) <= set(back):
+        return [fail("label", "assignlabels wrote labels %s, the grain names are %s" %
+                     (sorted(set(np.unique(named).tolist()) - set(back))[:5], names), entry="assignlabels")]
+    labels = np.array([back[x] for x in named.tolist()], int)
     drlv2 = np.asarray(o.scandata["scan"].drlv2, float)
     compare("refinegrains.assignlabels", labels, drlv2, ref, 1.0, fails,
             extra=" [layout %s, translations %s]" % (case["layout"], np.round(ts[:4], 1).tolist()))
     E, exp, expd, tie, amb, Em = ref
     for g in range(ng):
-        gr = o.grains[(g, "scan")]
+        gr = o.grains[(names[g], "scan")]
         ind = np.sort(np.asarray(gr.ind))
         if not np.array_equal(ind, np.nonzero(labels == g)[0]) or gr.npks != len(ind):
             fails.append(fail("histogram", "assignlabels: grain %d holds %d peaks, labels column says %d" %
-                              (g, gr.npks, int((labels == g).sum())), entry="assignlabels"))
+                              (names[g], gr.npks, int((labels == g).sum())), entry="assignlabels"))
             break
     if rec is not None:
         comp = int(((E < min(tol * tol, 1.0)).sum(axis=0) >= 2).sum())
         good = int(((exp == own) & (own >= 0)).sum())
-        rec.case(case, ng >= 2 and good > 0, ["assignlabels", "layout:" + case["layout"]] +
+        rec.case(case, ng >= 2 and good > 0, ["assignlabels", "layout:" + case["layout"], "names:" + naming] +
                  (["competition"] if comp else []))
         rec.note("assignlabels_peaks", n)
         if amb.any():
